@@ -134,7 +134,7 @@ def _run(ctx):
             continue
         # ---- the same compliances by name: s11 ... s66 are the adiabatic ones; a name with the isothermal suffix (s11t) either
         #      is not offered or is an element of the inverse of the reported *isothermal* stiffness (c11t ...)
-        if i % 4 == 0:
+        if (i // 16) % 4 == 0:
             c66a, c66t = numpy.zeros((nt, ntv, 6, 6)), numpy.zeros((nt, ntv, 6, 6))
             for k_ in keys:
                 a_, b_ = T.VOIGT21[k_]
@@ -161,7 +161,7 @@ def _run(ctx):
                                       f"{system}: {nm} differs from the ({a_},{b_}) element of the inverse of the reported {what} stiffness by {err:.3g} (relative)"
                                       + (f"; it equals the element of the inverse of the {'adiabatic' if want is st_ else 'isothermal'} one" if other <= 1e-7 else ""),
                                       case_id, {"system": system, "name": nm})
-        if i % 8 == 0:
+        if (i // 16) % 8 == 0:          # (not i % 8: with 16 workers that would put every such case on two of them)
             # history: writing result tables (all volume-base keywords) must leave the reported values as they were
             import os, shutil, tempfile
             here, tmpd = os.getcwd(), tempfile.mkdtemp(prefix="c07-")
